@@ -417,13 +417,38 @@ pub fn run(tier: &Tier) -> i32 {
     let depth = if tier.thorough { 6 } else { 4 };
     let st = histories(&rep, &c, depth);
     roundtrips(&rep, &c);
+    // general histories
+    let seq_depth = if tier.thorough { 4 } else { 3 };
+    let seq = {
+        use crate::ast::b::*;
+        let ins = |it: Item| match it {
+            Item::Ins(i) => i,
+            _ => unreachable!(),
+        };
+        let focus = vec![
+            ins(mov(r16("dx"), direct(W::W, 0x0020))),
+            ins(mov(direct(W::W, 0x0022), r16("ax"))),
+            ins(mov(r8("ah"), r8("bl"))),
+            ins(mov(sr("es"), r16("ax"))),
+            ins(mov(r16("dx"), sr("ss"))),
+            Instr::Xchg(direct(W::W, 0x0020), r16("ax")),
+            Instr::Xchg(r8("al"), r8("ah")),
+            ins(push(direct(W::W, 0x0020))),
+            ins(pop(direct(W::W, 0x0024))),
+            ins(push(sr("ds"))),
+            ins(pop(sr("es"))),
+            ins(z(ZeroOp::Lahf)),
+            ins(z(ZeroOp::Xlat)),
+        ];
+        crate::seqx::explore_sequences(&rep, &c, &focus, &crate::seqx::context_alphabet(), seq_depth, &crate::seqx::default_inits())
+    };
     let mut cov = Coverage::default();
     cov.exhaustive = !st.capped;
     if st.capped {
         cov.caps_hit.push(format!("history search stopped at {} states", st.states));
     }
-    cov.rule = "single step: every MOV/XCHG/PUSH/POP/singleton operand form of syntax.md x operand values x SS:SP in {0,1,2,0xFFFE,0xFFFF,0x100} x 6 SS values, compared in full with the reference (flags unchanged, complete swap, stack cell at SS:SP). Histories: breadth-first search over all sequences of 12 push/pop events up to the stated depth from 24 initial SS:SP states, on the product of the real machine and a reference stack, states deduplicated by (registers, sparse memory). Round trips: push x; pop y as source programs. distinct_nontrivial = distinct pre-states executed".into();
-    cov.bounds = json!({"forms": fs.len(), "history_depth": depth, "history_states": st.states, "history_transitions": st.transitions, "tier": tier.name()});
+    cov.rule = "single step: every MOV/XCHG/PUSH/POP/singleton operand form of syntax.md x operand values x SS:SP in {0,1,2,0xFFFE,0xFFFF,0x100} x 6 SS values, compared in full with the reference (flags unchanged, complete swap, stack cell at SS:SP). Histories: breadth-first search over all sequences of 12 push/pop events up to the stated depth from 24 initial SS:SP states, on the product of the real machine and a reference stack, states deduplicated by (registers, sparse memory). Round trips: push x; pop y as source programs. distinct_nontrivial = distinct pre-states executed Histories: every sequence of up to 3 (thorough 4) instructions over the property's instructions plus a 16-instruction context alphabet (register, memory, stack and flag traffic), with at least one of the property's instructions, as ONE program on ONE machine and ONE Interpreter object from 3 initial states, compared with the reference after every step (whole memory on every 16th run)".into();
+    cov.bounds = json!({"forms": fs.len(), "history_depth": depth, "history_states": st.states, "history_transitions": st.transitions, "sequence_depth": seq_depth, "sequences": seq.sequences, "sequence_steps": seq.steps, "sequence_whole_memory_audits": seq.audits, "tier": tier.name()});
     cov.assumptions = common_assumptions();
     cov.assumptions.push("push sp / pop sp are excluded from the value law (8086 and later CPUs differ); they stay in C09's totality check".into());
     let cov = finish_cov(&c, cov);
